@@ -355,7 +355,12 @@ impl<S: Write + Seek> W<S> {
                         let mut rest: &[u8] = d;
                         while !rest.is_empty() {
                             let mid = rest.len() / 2;
-                            let n = z.write_vectored(&[std::io::IoSlice::new(&rest[..mid]), std::io::IoSlice::new(&rest[mid..])]).map_err(|e| e.to_string())?;
+                            let n = match z.write_vectored(&[std::io::IoSlice::new(&rest[..mid]), std::io::IoSlice::new(&rest[mid..])]) {
+                                Ok(n) => n,
+                                // the retryable non-failure of the Write contract: nothing was taken, call again
+                                Err(e) if e.kind() == std::io::ErrorKind::Interrupted => continue,
+                                Err(e) => return Err(e.to_string()),
+                            };
                             if n == 0 {
                                 return Err("failed to write whole buffer".into());
                             }
@@ -497,6 +502,18 @@ pub fn with_vectored_writes<T>(f: impl FnOnce() -> T) -> T {
     let r = f();
     WRITE_MODE.with(|m| m.set(0));
     r
+}
+
+/// `exec` over an instrumented sink driven by `plan` (short writes, Interrupted, errors at chosen I/O calls).
+pub fn exec_plan(calls: &[Call], sources: &[Vec<u8>], plan: crate::sio::inst::PlanRef) -> (Vec<Res>, Vec<u8>) {
+    let sink = SharedBuf::default();
+    let mut w = W::new(crate::sio::inst::Inst::over(sink.clone(), plan));
+    let mut out = Vec::with_capacity(calls.len());
+    for c in calls {
+        out.push(w.call(c, sources));
+    }
+    drop(w);
+    (out, sink.snapshot())
 }
 
 /// Like `exec`, but the sink already holds `initial` (the writer starts at position 0 and overwrites): a pre-sized buffer
